@@ -31,6 +31,7 @@ const (
 	c32FRenamedNull   = "C32-patch-renamed-column-set-null"    // a row whose value in a renamed column becomes NULL gets no UPDATE (from_ values are matched to the target schema by column name)
 	c32FRenameDropIdx = "C32-patch-rename-table-drop-index"    // after RENAME TABLE the DROP INDEX statements still name the old table: error 1146
 	c32FDefaultNull   = "C32-patch-added-default-column-null"  // a column added with a DEFAULT: rows holding NULL in it at `to` get no UPDATE and keep the default
+	c32FDefaultChange = "C32-patch-default-change-ignored"     // a changed column DEFAULT produces no statement
 	c32FRenameOnto    = "C32-patch-rename-onto-dropped-column" // RENAME COLUMN x TO y is emitted before DROP y: error "column already exists"
 	c32FColOrder      = "C32-patch-column-position"            // ADD COLUMN is emitted without FIRST/AFTER: the patched table has another column order than `to`
 )
@@ -148,7 +149,7 @@ func c32ShapeDefaultNull(from, to *hTable) bool {
 		return false
 	}
 	for j, tc := range to.Cols {
-		if !tc.Def {
+		if tc.Def == "" {
 			continue
 		}
 		isNew := true
@@ -162,6 +163,21 @@ func c32ShapeDefaultNull(from, to *hTable) bool {
 		}
 		for k, tr := range to.Rows {
 			if _, ok := from.Rows[k]; ok && tr[j] == vsql.Null {
+				return true
+			}
+		}
+	}
+	return false
+}
+
+// c32ShapeDefaultChange: a column that dolt identifies across the pair has another DEFAULT.
+func c32ShapeDefaultChange(from, to *hTable) bool {
+	if from == nil || to == nil {
+		return false
+	}
+	for _, tc := range to.Cols {
+		for _, fc := range from.Cols {
+			if (fc.UID == tc.UID || (fc.Name == tc.Name && fc.Type == tc.Type)) && fc.Def != tc.Def {
 				return true
 			}
 		}
@@ -783,7 +799,7 @@ func (c *c32Checker) patch(fi, ti int) {
 		}
 		if (c32ShapeDropIdxCol(from, to) && c32Excluded(c32FDropIdxCol)) || (c32ShapePKIndex(from, to) && c32Excluded(c32FPKIndex)) ||
 			(c32ShapeRenamedNull(from, to) && c32Excluded(c32FRenamedNull)) || (c32ShapeRenameOnto(from, to) && c32Excluded(c32FRenameOnto)) ||
-			(c32ShapeDefaultNull(from, to) && c32Excluded(c32FDefaultNull)) {
+			(c32ShapeDefaultNull(from, to) && c32Excluded(c32FDefaultNull)) || (c32ShapeDefaultChange(from, to) && c32Excluded(c32FDefaultChange)) {
 			c.st.excluded++
 			return
 		}
@@ -895,6 +911,15 @@ func (c *c32Checker) diffTable() {
 		all, err := h.w.Query(q)
 		c.st.evals++
 		if err != nil {
+			pkChanged := false
+			for _, a := range anc {
+				if old := h.Commits[a].State[name]; old != nil && c32PKChanged(old, cur) {
+					pkChanged = true
+				}
+			}
+			if pkChanged {
+				continue // an older table of this name had another primary key: dolt_diff_<t> refuses ("could not map primary key column")
+			}
 			c.fail("C32 dolt_diff_<t>: %s failed: %v", q, err)
 		}
 		tci := -1
@@ -948,7 +973,7 @@ func c32Run(t *testing.T, rec *vh.Recorder, part string, quick, thorough int, cf
 		defer p.Close()
 		c := cfg
 		if vh.Thorough() {
-			c.MaxCommits += 2
+			c.MaxCommits += 1
 		}
 		h := newHist(rt, srv, db, w, c)
 		h.build()
@@ -996,5 +1021,5 @@ func TestVerif_C32(t *testing.T) {
 	)
 	defer rec.Write(t)
 	c32Run(t, rec, "pairs", 130, 220, hConfig{Types: hAllTypes, TablePool: []string{"t0", "t1", "t2"}, ColPool: []string{"c0", "c1", "c2", "c3", "c4"},
-		MaxCommits: 4, MaxEdits: 8, RowBoost: true, Indexes: true, StrPK: true, PKByName: true}, c32Opts{patch: true})
+		MinCommits: 3, MaxCommits: 4, MaxEdits: 9, RowBoost: true, DDLBoost: 2, Indexes: true, StrPK: true, PKByName: true}, c32Opts{patch: true})
 }
